@@ -18,7 +18,7 @@ import re
 
 from facts import Body
 
-MAX_BLOCKS = 120
+MAX_BLOCKS = 240
 MAX_DEPTH = 3
 PROTECTED = {"take_cf_content", "deserialize"}
 
@@ -735,6 +735,8 @@ def _preds(blocks):
 
 def _variant_discr(crate, ty_index, variant):
     t = crate.types[ty_index]
+    if t.get("s") == "bool" and variant in ("true", "false"):
+        return 1 if variant == "true" else 0
     if t["k"] != "adt":
         return None
     adt = crate.adts.get(t["path"])
@@ -777,6 +779,9 @@ def thread_known_variants(crate, d, rounds=12):
                     if st["rv"]["k"] == "discr" and not st["rv"]["place"]["p"]:
                         subj = st["rv"]["place"]["l"]
                     break
+            if subj is None and crate.types[locals_[dl]["ty"]]["s"] == "bool" and not any(
+                    st["k"] == "assign" and st["place"]["l"] == dl and not st["place"]["p"] and st["rv"]["k"] != "use" for st in blk["stmts"]):
+                subj = dl      # `if flag`: the flag itself, a two-valued "enum" (false = 0, true = 1)
             if subj is None:
                 continue
             switch_ty = locals_[subj]["ty"]
@@ -799,6 +804,8 @@ def thread_known_variants(crate, d, rounds=12):
                         continue
                     if rv["k"] == "agg" and rv.get("ak") == "adt" and rv.get("variant"):
                         return subj, rv["variant"], True
+                    if rv["k"] == "use" and rv["op"]["k"] == "const" and isinstance(rv["op"].get("bool"), bool):
+                        return subj, "true" if rv["op"]["bool"] else "false", True
                     return subj, None, True
                 return subj, None, False
             # inside the switch block itself (before the discriminant read)
@@ -849,6 +856,13 @@ def thread_known_variants(crate, d, rounds=12):
                 if len(_succs(qt)) != 1 or blocks[blockid].get("cleanup"):
                     return
                 if qt["k"] == "call" and qt["dest"]["l"] == sj and not qt["dest"]["p"]:
+                    # `Err(e)?` / `None?` of an expanded helper: what `from_residual` builds is the failing variant
+                    fq = _fn_of(qt)
+                    if fq is not None and fq.get("name") == "from_residual" and "FromResidual" in (fq.get("full") or ""):
+                        tq = crate.types[locals_[sj]["ty"]]
+                        kvq = {"std::result::Result": "Err", "std::option::Option": "None", "std::ops::ControlFlow": "Break"}.get(tq.get("path")) if tq["k"] == "adt" else None
+                        if kvq:
+                            plans.append((blockid, kvq, list(path)))
                     return
                 sj2, kv, stop = scan_back(blockid, sj)
                 if kv:
